@@ -698,7 +698,9 @@ func c08PendingAtShutdown(w *fw.Worker, i int, r *fw.Rand) {
 
 func runC08(w *fw.Worker) {
 	w.Cases(func(i int, r *fw.Rand) {
-		g := i*w.Shards + w.Shard
+		// every shard gets its share of every episode kind (with i*Shards+Shard the expensive kinds landed on two of the
+		// sixteen shards, which then ran twice as long as the rest)
+		g := i + 3*w.Shard
 		switch {
 		case g%40 == 17:
 			c08EventsPollers(w, i, r)
